@@ -6,6 +6,12 @@ Suites
                        documents, parsed by the real AndroidParser, checked by
                        getChecker(File('strings.xml', ...)).check(ref, l10n); the model is fed
                        the minidom nodes of the parsed entities (converted, not re-parsed)
+  ANDROID-E2E          real values/strings.xml reference / localized files in a temporary directory,
+                       ContentComparer().compare(File(ref), File(l10n, locale='de'), None) with an
+                       Observer; pairs from the token alphabet INCLUDING localized == reference (copied
+                       strings) and ids containing "key"/"Key"; the error/warning entries of the report
+                       details, attributed to the string id, against the token-level oracle and against
+                       the model's answer for the entities of the same files
   ANDROID-CHECK-types  hand-built entities of other resource types (nodeName branches)
   ANDROID-apostrophes  check_apostrophes on strings over the quoting alphabet (+ backslash,
                        newline) against the model
@@ -28,7 +34,9 @@ RULE = ("value pairs (reference, localized) assembled from the token alphabet {t
         "every localized sequence up to the tier's length against a panel of references, every pair of "
         "sequences of the argument tokens up to the tier's length, every pair of sequences up to a "
         "shorter length over the whole alphabet, plus seeded random longer pairs (CDATA with random "
-        "content, &quot;, lone backslash, U+FFFD only in the correspondence stream); a case is "
+        "content, &quot;, lone backslash, U+FFFD only in the correspondence stream); the same alphabet end "
+        "to end through ContentComparer.compare on real files, nearly half of the pairs with the localized "
+        "value copied from the reference and ids containing key/Key; a case is "
         "distinct by (reference xml, localized xml, flags); non-trivial = at least one issue reported")
 
 # ------------------------------------------------------------------ tokens ---
@@ -251,13 +259,14 @@ def clean(l10n):
     return not any(SIMPLE[t][2] == "apos" for t in l10n) and '""' not in s
 
 
-def judge(chk, case, issues):
+def judge(chk, case, issues, prefix="", extra=None):
     """the property on the implementation's own answer (issues: raw tuples of check())"""
     ref, l10n, rflag, lflag = case
     got = [(s, int(p), kind_of(m)) for s, p, m, c in issues]
     want = expected(ref, l10n, rflag, lflag)
     info = {"ref": value_xml(ref), "l10n": value_xml(l10n), "ref_translatable": rflag,
             "l10n_translatable": lflag}
+    info.update(extra or {})
     bad_cat = [i for i in issues if i[3] != "android" or i[0] not in ("error", "warning")]
 
     def key(x):
@@ -279,7 +288,7 @@ def judge(chk, case, issues):
         sig = "category"
     else:
         sig = "warnings-or-positions-differ"
-    chk.fail(sig, info, {"got": got, "expected": want})
+    chk.fail(prefix + sig, info, {"got": got, "expected": want})
 
 
 # --------------------------------------------------------- implementation ---
@@ -387,6 +396,121 @@ def run_pairs(chk, model, suite, cases, oracle=True):
         outs = model.call(reqs)
         chk.correspond(suite, [(value_xml(r), value_xml(l), rf, lf) for r, l, rf, lf in cases],
                        impl, outs)
+
+
+# -------------------------------------------------------------- end to end ---
+import re as _re
+
+ENTRY = _re.compile(r"^(.*) at line (\d+), column (\d+) for (\S+)$", _re.S)
+IDS = ["k%d", "accesskey%d", "some%dKey", "label%d", "Key%d", "k%dkeyboard"]
+
+
+def strings_xml(items):
+    """items: list of (id, value xml, translatable flag | None)"""
+    lines = ['<?xml version="1.0" encoding="utf-8"?>', "<resources>"]
+    for i, (name, xml, flag) in enumerate(items):
+        attr = "" if flag is None else f' translatable="{flag}"'
+        if i % 5 == 2:
+            lines.append(f"  <!-- comment {i} -->")
+        lines.append(f'  <string name="{name}"{attr}>{xml}</string>')
+    lines.append("</resources>")
+    return "\n".join(lines) + "\n"
+
+
+def e2e_compare(tmp, ref_text, l10n_text):
+    """-> list of (severity, text) of the error/warning entries of the report details, in order"""
+    import os
+    from compare_locales.compare.content import ContentComparer
+    from compare_locales.compare.observer import Observer
+    from compare_locales.paths import File
+    paths = {}
+    for side, text in (("ref", ref_text), ("l10n", l10n_text)):
+        path = os.path.join(tmp, side, "values", "strings.xml")
+        os.makedirs(os.path.dirname(path), exist_ok=True)
+        with open(path, "w", encoding="utf-8", newline="") as f:
+            f.write(text)
+        paths[side] = path
+    cc = ContentComparer()
+    obs = Observer()
+    cc.observers.append(obs)
+    cc.compare(File(paths["ref"], "values/strings.xml"),
+               File(paths["l10n"], "values/strings.xml", locale="de"), None)
+    details = obs.toJSON()["details"].get("values/strings.xml", [])
+    out = []
+    for d in details:
+        for sev in ("error", "warning"):
+            if sev in d:
+                out.append((sev, d[sev]))
+        if not ("error" in d or "warning" in d):
+            out.append(("other", repr(d)))
+    return out, obs.toJSON()["summary"]
+
+
+def file_entities(text):
+    from compare_locales import parser
+    p = parser.getParser("values/strings.xml")
+    p.readUnicode(text)
+    return {e.key: e for e in p.walk() if isinstance(e, parser.android.AndroidEntity)}
+
+
+def run_e2e(chk, model, files):
+    """files: list of lists of (ref tokens, l10n tokens, rflag, lflag); one strings.xml pair each"""
+    import shutil
+    import tempfile
+    tmp = tempfile.mkdtemp(prefix="verif_c09_")
+    impl, reqs_per_file, descr = [], [], []
+    try:
+        for fi, cases in enumerate(files):
+            ids = [IDS[(fi + j) % len(IDS)] % j for j in range(len(cases))]
+            ref_text = strings_xml([(i, value_xml(c[0]), c[2]) for i, c in zip(ids, cases)])
+            l10n_text = strings_xml([(i, value_xml(c[1]), c[3]) for i, c in zip(ids, cases)])
+            entries, summary = e2e_compare(tmp, ref_text, l10n_text)
+            by_id = {i: [] for i in ids}
+            for sev, text in entries:
+                m = ENTRY.match(text)
+                if sev == "other" or not m or m.group(4) not in by_id or m.group(2) != "0":
+                    chk.fail("e2e-unexpected-entry", {"file": fi, "entry": text}, sev)
+                    continue
+                by_id[m.group(4)].append((sev, int(m.group(3)), m.group(1), "android"))
+            n_err = 0
+            for i, case in zip(ids, cases):
+                chk.evaluations += 1
+                same = value_xml(case[0]) == value_xml(case[1])
+                if by_id[i]:
+                    chk.distinct.add(("e2e", fi, i))
+                chk.hist("e2e_pairs", ("copied" if same else "changed") + "/" +
+                         ("key-id" if "ey" in i else "plain-id") + "/" +
+                         ("error" if any(s == "error" for s, _, _, _ in by_id[i]) else "no-error"))
+                judge(chk, case, by_id[i], prefix="e2e-",
+                      extra={"id": i, "copied": same, "file": fi})
+                n_err += sum(s == "error" for s, _, _, _ in by_id[i])
+            if summary.get("de", {}).get("errors", 0) != n_err:
+                chk.fail("e2e-summary-errors", {"file": fi}, {"summary": summary, "entries": n_err})
+            impl.append([[int(sev == "error"), canon(text)] for sev, text in entries])
+            rents, lents = file_entities(ref_text), file_entities(l10n_text)
+            reqs_per_file.append([(0, [entity_sx(rents[i], False), entity_sx(lents[i])]) for i in ids])
+            descr.append({"file": fi, "ids": ids, "ref": ref_text, "l10n": l10n_text})
+    finally:
+        shutil.rmtree(tmp, ignore_errors=True)
+    if files:
+        chk.sample({"suite": "ANDROID-E2E", "ref_file": descr[0]["ref"][:400],
+                    "l10n_file": descr[0]["l10n"][:400],
+                    "report": [[a, common.l2s(b)] for a, b in impl[0]][:8]})
+    if model:
+        flat = [r for reqs in reqs_per_file for r in reqs]
+        outs = iter(model.call(flat))
+        mouts = []
+        for d, reqs in zip(descr, reqs_per_file):
+            rep = []
+            for i, _ in zip(d["ids"], reqs):
+                o = next(outs)
+                if o[0] != 0:
+                    rep.append([-1, o])
+                    continue
+                for err, (ent, pos), msg, cat in o[1]:
+                    rep.append([err, canon("%s at line 0, column %d for %s" % (common.l2s(msg), pos, i))])
+            mouts.append(rep)
+        chk.correspond("ANDROID-E2E", [{"file": d["file"], "ids": d["ids"]} for d in descr], impl, mouts)
 
 
 def seqs(alpha, maxlen):
@@ -508,6 +632,37 @@ def run(chk, runner_ok):
                       rng.choice(FLAGS) if rng.random() < 0.1 else None))
     run_pairs(chk, model, "ANDROID-CHECK-wild", cases, oracle=False)
 
+    # ---- end to end through ContentComparer ------------------------------------
+    pool = [[], ["a"], ["a", "ap", "a"], ["a", "q", "q"], ["at", "a"], ["a", "markup", "a"],
+            ["%1$s", "sp", "%1$d"], ["%s", "sp", "%d"], ["%1$s"], ["q", "a", "ap", "a", "q"],
+            ["a", "ea", "a"], [CD], ["sp", ("cdata", ("a", "ap")), "sp"], [CD, CD], ["%2$d", "%1$s"],
+            ["a", "eq", "q"], ["%.2f"], ["at"], ["ap"], ["q", "q"]]
+    files = []
+    for _ in range(chk.n(12, 120)):
+        cases = []
+        for _ in range(rng.randint(20, 40)):
+            r = rng.choice(pool) if rng.random() < 0.6 else random_tokens(rng, False)
+            x = rng.random()
+            if x < 0.45:
+                l = r                                   # copied: localized == reference
+            elif x < 0.7:
+                l = rng.choice(pool)
+            else:
+                l = random_tokens(rng, False)
+            rf = rng.choice(FLAGS) if rng.random() < 0.12 else None
+            lf = rng.choice(FLAGS) if rng.random() < 0.12 else None
+            cases.append((r, l, rf, lf))
+        files.append(cases)
+    # the cases of the seeded demo, as one file
+    files.append([(["a"], ["a"], None, "false"), (["a"], ["a"], "false", None),
+                  (["a", "ap", "a"], ["a", "ap", "a"], None, None),
+                  (["a", "q", "q"], ["a", "q", "q"], None, None),
+                  (["at", "a"], ["at", "a"], None, None),
+                  (["%1$s", "sp", "%1$d"], ["%1$s", "sp", "%1$d"], None, None),
+                  (["a", "markup", "a"], ["a", "markup", "a"], None, None),
+                  (["a"], ["a"], None, None), (["a"], ["a", "a"], None, None)])
+    run_e2e(chk, model, files)
+
     # ---- other resource types ------------------------------------------------
     ents = type_cases()
     checker = get_checker()
@@ -584,9 +739,23 @@ def replay(chk, path):
             print("case", c, f["detail"])
             rc = 1
             continue
-        r = build_entities([(c["ref"], c["ref_translatable"])])[0]
-        l = build_entities([(c["l10n"], c["l10n_translatable"])])[0]
-        got = [(s, int(p), m, cat) for s, p, m, cat in checker.check(r, l)]
+        if f["signature"].startswith("e2e-") and "id" in c:
+            import shutil
+            import tempfile
+            tmp = tempfile.mkdtemp(prefix="verif_c09_")
+            try:
+                entries, _ = e2e_compare(tmp, strings_xml([(c["id"], c["ref"], c["ref_translatable"])]),
+                                         strings_xml([(c["id"], c["l10n"], c["l10n_translatable"])]))
+            finally:
+                shutil.rmtree(tmp, ignore_errors=True)
+            got = []
+            for sev, text in entries:
+                m = ENTRY.match(text)
+                got.append((sev, int(m.group(3)), m.group(1), "android") if m else (sev, 0, text, "?"))
+        else:
+            r = build_entities([(c["ref"], c["ref_translatable"])])[0]
+            l = build_entities([(c["l10n"], c["l10n_translatable"])])[0]
+            got = [(s, int(p), m, cat) for s, p, m, cat in checker.check(r, l)]
         print("case", c, "\n  impl    ", got, "\n  recorded", f["detail"])
         exp = f["detail"].get("expected") if isinstance(f["detail"], dict) else None
         if exp is not None:
